@@ -78,6 +78,8 @@ def gen_plan(rng, tier, idx, opts):
                 v = round(rng.uniform(1, 10), 2) if valid else rng.choice([0.0, 0.99, 10.01, 50.0])
             else:
                 v = rng.choice(["open", "suburban", "medium city", "large city"]) if valid else rng.choice(["rural", "", "Open", "city"])
+            if a == "hbs" and rng.random() < 0.2:
+                v = "=fc"            # a coincidence of two parameters: the base-station height happens to equal the carrier (both 150..200)
             ops.append({"op": "set", "attr": a, "v": v})
         else:
             ops.append({"op": "eval"})
@@ -482,6 +484,10 @@ def execute(plan):
                     last.update(op="plot", rejected=False)
                     bump(res["probes"], "plot_helper_called")
                 elif o == "set":
+                    if op["v"] == "=fc":
+                        if not (30 <= float(obj.fc) <= 200):
+                            continue
+                        op = dict(op, v=float(obj.fc))
                     before = public_state(obj, model)
                     rejected = False
                     try:
